@@ -124,7 +124,8 @@ Print Assumptions c16_session_invariant_needs_clone_copy.
 (* every history from a well-formed table (e.g. the empty one) stays well-formed, so the theorems
    above apply at every step of every sequence of Save/upsert/FirstOrCreate/FirstOrInit *)
 Theorem c16_history_wf : forall keep hs t,
-  Forall (fun s : hstep => chain_keeps_key (snd (fst s))) hs -> wf t -> wf (run_history keep t hs).
+  Forall (fun s : hstep => is_composite (snd s) = false /\ chain_keeps_key (snd (fst s))) hs ->
+  wf t -> wf (run_history keep t hs).
 Proof. exact history_wf. Qed.
 Print Assumptions c16_history_wf.
 
@@ -153,6 +154,18 @@ Theorem c16_other_index_error_keeps_table : forall t now ru tgt v,
   res_err (create_u t now ru tgt v) = true -> res_tbl (create_u t now ru tgt v) = t.
 Proof. exact create_u_err. Qed.
 Print Assumptions c16_other_index_error_keeps_table.
+
+(* a model type with a COMPOSITE primary key (id, region): a row sharing only ONE key member with the value
+   is no collision (the value is inserted next to it), and saving twice equals saving once *)
+Theorem c16_composite_other_member : forall t ru v, clookup t v = None ->
+  ccreate t ru v = mk_result v 1 false 1 (t ++ [v]).
+Proof. exact ccreate_other_member. Qed.
+Print Assumptions c16_composite_other_member.
+
+Theorem c16_composite_save_idempotent : forall t v,
+  res_tbl (csave (res_tbl (csave t v)) v) = res_tbl (csave t v).
+Proof. exact csave_twice. Qed.
+Print Assumptions c16_composite_save_idempotent.
 
 (* Save of a slice: the table stays well-formed and every element gets a record handed back.  What
    the elements hold afterwards (values, keys handed back, other rows untouched) is tied by the
